@@ -38,12 +38,19 @@ Proof. exact special_callee_has_no_target. Qed.
 Print Assumptions C08_bare_call_follows_scope_chain.
 Print Assumptions C08_method_on_non_import_has_no_target.
 
-(* REFUTED: parameters are registered with a plain add (finding KF_C08_1) *)
-Theorem C08_parameter_named_like_function_refuted :
-  get_call_target (fun _ => false) after_params "helper" = Some (mkSym "helper" KFunc)
+(* parameters are registered with is_argument=True (fix 1134bd3; finding KF_C08_1 before it): in ANY context, after the
+   parameter p is added in a fresh scope, a bare call to p gets the parameter - whatever the enclosing scopes hold *)
+Theorem C08_parameter_shadows_in_any_context :
+  forall mexists c p,
+    replace_all "*" "" (without_call_brackets p) = p -> split_dot p = [p] -> starts_with "@" p = false ->
+    contains "[]" p = false -> contains "." p = false ->
+    get_call_target mexists (ctx_add (ctx_push c) (mkSym p KName) true) p = Some (mkSym p KName).
+Proof. exact argument_add_shadows. Qed.
+Theorem C08_parameter_named_like_function_shadows :
+  get_call_target (fun _ => false) after_params "helper" = Some (mkSym "helper" KName)
   /\ get_call_target (fun _ => false) after_params "x" = Some (mkSym "x" KName).
-Proof. exact parameter_named_like_function_refuted. Qed.
-Print Assumptions C08_parameter_named_like_function_refuted.
+Proof. exact parameter_named_like_function_shadows. Qed.
+Print Assumptions C08_parameter_shadows_in_any_context.
 
 (* REFUTED: a call on a call result f(x)(y) gets f as its target (finding KF_C08_2) *)
 Theorem C08_target_depends_only_on_the_unbracketed_name :
